@@ -309,8 +309,31 @@ def run(prog, rep, tier):
         rep.check(got is not None and exp is not None and set(got) <= set(exp), 'S4-who-touches-the-table', 'state_vectors#' + fn, fn,
                   'direct uses of state_vectors: %s; reviewed table allows %s' % (got, exp),
                   sample={'fn': fn, 'methods': got} if fn.startswith('snapshot') else None, nontrivial=bool(got))
-    rep.check(writers <= set(spec['snapshot_field_writers']), 'S4-who-touches-the-table', 'snapshot-field-writers', 'crates/jet1090/src',
-              'Snapshot fields are written in %s; reviewed writers: %s' % (sorted(writers), sorted(spec['snapshot_field_writers'])))
+    # a writer outside the reviewed roots is fine when it is a helper reachable only from them (every call site of
+    # it, transitively, sits in a reviewed root): extracting a function out of update_snapshot keeps the rule quiet
+    callers = {}
+    for b in prog.bodies.values():
+        if b['crate'] != 'jet1090':
+            continue
+        for bb in b['blocks']:
+            t = bb['t']
+            if t and t['k'] == 'call' and t['callee']:
+                tgt = prog.bodies.get(t['callee'].get('rdid') or '')
+                if tgt is not None and tgt['crate'] == 'jet1090':
+                    callers.setdefault(norm(tgt['name']), set()).add(norm(b['name']))
+    roots = set(spec['snapshot_field_writers'])
+
+    def allowed(fn, seen_=()):
+        if fn in roots:
+            return True
+        if fn in seen_:
+            return False
+        cs = callers.get(fn)
+        return bool(cs) and all(allowed(c_, seen_ + (fn,)) for c_ in cs)
+    outside = sorted(w for w in writers if not allowed(w))
+    rep.check(not outside, 'S4-who-touches-the-table', 'snapshot-field-writers', 'crates/jet1090/src',
+              'Snapshot fields are written in %s, which are neither reviewed writers (%s) nor helpers called only from them (callers: %s)'
+              % (outside, sorted(roots), {w: sorted(callers.get(w, [])) for w in outside}))
     rep.floor('Snapshot field writers', len(writers), 2)
     for fn in sorted(set(hist) | set(spec['history_mutators'])):
         got = sorted(hist.get(fn, []))
